@@ -338,7 +338,11 @@ private:
 
     JSONCONS_VISITOR_RETURN_TYPE visit_end_object(const ser_context&, std::error_code& ec) final
     {
-        JSONCONS_ASSERT(!stack_.empty());
+        if (stack_.empty()) // the value is not part of a table (an array of rows or an object of columns)
+        {
+            ec = csv_errc::source_error;
+            JSONCONS_VISITOR_RETURN;
+        }
 
         switch (stack_.back().item_kind_)
         {
@@ -620,7 +624,11 @@ private:
 
     JSONCONS_VISITOR_RETURN_TYPE visit_end_array(const ser_context&, std::error_code& ec) final
     {
-        JSONCONS_ASSERT(!stack_.empty());
+        if (stack_.empty()) // the value is not part of a table (an array of rows or an object of columns)
+        {
+            ec = csv_errc::source_error;
+            JSONCONS_VISITOR_RETURN;
+        }
         
         switch (stack_.back().item_kind_)
         {
@@ -750,9 +758,13 @@ private:
         JSONCONS_VISITOR_RETURN;
     }
 
-    JSONCONS_VISITOR_RETURN_TYPE visit_key(const string_view_type& name, const ser_context&, std::error_code&) final
+    JSONCONS_VISITOR_RETURN_TYPE visit_key(const string_view_type& name, const ser_context&, std::error_code& ec) final
     {
-        JSONCONS_ASSERT(!stack_.empty());
+        if (stack_.empty()) // the value is not part of a table (an array of rows or an object of columns)
+        {
+            ec = csv_errc::source_error;
+            JSONCONS_VISITOR_RETURN;
+        }
         switch (stack_.back().item_kind_)
         {
             case stack_item_kind::flat_object:
@@ -818,9 +830,13 @@ private:
         }
     }
 
-    JSONCONS_VISITOR_RETURN_TYPE visit_null(semantic_tag, const ser_context&, std::error_code&) final
+    JSONCONS_VISITOR_RETURN_TYPE visit_null(semantic_tag, const ser_context&, std::error_code& ec) final
     {
-        JSONCONS_ASSERT(!stack_.empty());
+        if (stack_.empty()) // the value is not part of a table (an array of rows or an object of columns)
+        {
+            ec = csv_errc::source_error;
+            JSONCONS_VISITOR_RETURN;
+        }
         switch (stack_.back().item_kind_)
         {
             case stack_item_kind::flat_object:
@@ -888,9 +904,13 @@ private:
         JSONCONS_VISITOR_RETURN;
     }
 
-    JSONCONS_VISITOR_RETURN_TYPE visit_string(const string_view_type& sv, semantic_tag, const ser_context&, std::error_code&) final
+    JSONCONS_VISITOR_RETURN_TYPE visit_string(const string_view_type& sv, semantic_tag, const ser_context&, std::error_code& ec) final
     {
-        JSONCONS_ASSERT(!stack_.empty());
+        if (stack_.empty()) // the value is not part of a table (an array of rows or an object of columns)
+        {
+            ec = csv_errc::source_error;
+            JSONCONS_VISITOR_RETURN;
+        }
         switch (stack_.back().item_kind_)
         {
             case stack_item_kind::flat_object:
@@ -964,7 +984,11 @@ private:
                               const ser_context& context,
                               std::error_code& ec) final
     {
-        JSONCONS_ASSERT(!stack_.empty());
+        if (stack_.empty()) // the value is not part of a table (an array of rows or an object of columns)
+        {
+            ec = csv_errc::source_error;
+            JSONCONS_VISITOR_RETURN;
+        }
 
         byte_string_chars_format encoding_hint;
         switch (tag)
@@ -1019,7 +1043,11 @@ private:
                          const ser_context& context,
                          std::error_code& ec) final
     {
-        JSONCONS_ASSERT(!stack_.empty());
+        if (stack_.empty()) // the value is not part of a table (an array of rows or an object of columns)
+        {
+            ec = csv_errc::source_error;
+            JSONCONS_VISITOR_RETURN;
+        }
         switch (stack_.back().item_kind_)
         {
             case stack_item_kind::flat_object:
@@ -1094,9 +1122,13 @@ private:
     JSONCONS_VISITOR_RETURN_TYPE visit_int64(int64_t val, 
                         semantic_tag, 
                         const ser_context&,
-                        std::error_code&) final
+                        std::error_code& ec) final
     {
-        JSONCONS_ASSERT(!stack_.empty());
+        if (stack_.empty()) // the value is not part of a table (an array of rows or an object of columns)
+        {
+            ec = csv_errc::source_error;
+            JSONCONS_VISITOR_RETURN;
+        }
         switch (stack_.back().item_kind_)
         {
             case stack_item_kind::flat_object:
@@ -1167,9 +1199,13 @@ private:
     JSONCONS_VISITOR_RETURN_TYPE visit_uint64(uint64_t val, 
                       semantic_tag, 
                       const ser_context&,
-                      std::error_code&) final
+                      std::error_code& ec) final
     {
-        JSONCONS_ASSERT(!stack_.empty());
+        if (stack_.empty()) // the value is not part of a table (an array of rows or an object of columns)
+        {
+            ec = csv_errc::source_error;
+            JSONCONS_VISITOR_RETURN;
+        }
         switch (stack_.back().item_kind_)
         {
             case stack_item_kind::flat_object:
@@ -1237,9 +1273,13 @@ private:
         JSONCONS_VISITOR_RETURN;
     }
 
-    JSONCONS_VISITOR_RETURN_TYPE visit_bool(bool val, semantic_tag, const ser_context&, std::error_code&) final
+    JSONCONS_VISITOR_RETURN_TYPE visit_bool(bool val, semantic_tag, const ser_context&, std::error_code& ec) final
     {
-        JSONCONS_ASSERT(!stack_.empty());
+        if (stack_.empty()) // the value is not part of a table (an array of rows or an object of columns)
+        {
+            ec = csv_errc::source_error;
+            JSONCONS_VISITOR_RETURN;
+        }
         switch (stack_.back().item_kind_)
         {
             case stack_item_kind::flat_object:
